@@ -175,9 +175,10 @@ class H5Writer:
             base = list(h5file)[0]
             base_handle = h5file[base]
 
-            # the project node is the handle of the workspace itself, never of an
-            # entity or type that happens to carry the same name
-            if entity.name == base and not isinstance(entity, (Entity, EntityType)):
+            # the project node is the handle of the workspace itself (whatever name
+            # the node carries in this file), never of an entity or type that
+            # happens to carry the same name
+            if not isinstance(entity, (Entity, EntityType)):
                 return base_handle
 
             uid = entity.uid
